@@ -130,7 +130,7 @@ class Progress:
     or is itself the tail call of a progress function.  Trait methods declared in the workspace are progress iff all
     workspace impls are (CHA; recursion assumed coinductively)."""
 
-    FINITE_ITER = re.compile(r'core::slice::iter::|core::ops::range::Range<|core::iter::adapters::(enumerate|copied|cloned|zip|rev|map|take|skip|step_by|chain|filter)::|alloc::vec::into_iter::IntoIter|core::array::iter::IntoIter|core::str::iter::|smallvec::IntoIter|core::option::IntoIter|core::option::Iter|std::collections::hash::|alloc::collections::')
+    FINITE_ITER = re.compile(r'core::slice::iter::|core::ops::range::Range<|core::iter::adapters::(enumerate|copied|cloned|zip|rev|map|take|skip|step_by|chain|filter|filter_map|flatten|peekable|take_while|skip_while|inspect|fuse)::|alloc::vec::into_iter::IntoIter|core::array::iter::IntoIter|core::str::iter::|smallvec::IntoIter|core::option::IntoIter|core::option::Iter|std::collections::hash::|alloc::collections::')
 
     def __init__(self, fb, crates, adt_iter_sources=None):
         self.fb = fb
